@@ -764,8 +764,12 @@ def check_C12(A, R, tier):
     from rules_compare import rule_comparison_pair
     rule_comparison_pair(A, R, "R12.c")      # ... and the comparison is asked about the pair whose records it is given (= R15.4)
     rule_no_bulk_removal(A, R, "R12.k")
+    # R12.s: 'is the output there?' is asked per job id (a multi-output job asked piece by piece is never 'there': rebuilt every time)
+    from rules_compare import rule_strategy_asked_by_job_id
+    rule_strategy_asked_by_job_id(A, R, "R12.s")
     # R12.p: jobs nobody can need are pruned completely at startup (otherwise they are invalidated on every start)
     rule_prune_fixpoint(A, R, "R12.p")
+    rule_classify_after_pruning(A, R, "R12.p")
     R.explanation = ("Writer/reader agreement (necessary for the fixpoint): per key class the template new_history writes and the templates "
                      "the next evaluation looks up are identical, and the quantity written (strategy input list of K; history_output of A; "
                      "history_output of K) is of the same provenance class as the quantity the reader compares the record with.")
@@ -1491,3 +1495,26 @@ def rule_prune_fixpoint(A, R, rule):
             R.ob(rule, "%s | the neighbours of a pruned job are looked up before it is taken out of the graph, not after" % short(body.name),
                  not late, detail="a neighbour query on a job that was already removed from the graph yields nothing: the upstreams that "
                                   "became leaves are never found", site=A.site(late[0]) if late else "")
+
+
+def rule_classify_after_pruning(A, R, rule):
+    """the startup classification runs on the pruned graph: an Ephemeral nobody can need never runs, so it never has records of
+    its own and would count as 'inputs changed' on every start (and pull in what it depends on)"""
+    from rules_more import call_graph, pruning_order_violations, graph_removers
+    g = call_graph(A)
+    fns = set()
+    for run in A.startup_runs():
+        for kind in ("write_state", "write_edge"):
+            for w in run.by_kind(kind):
+                sym = w["key"][0] if kind == "write_state" else w["b"]
+                roles = run.syms.get(sym, (frozenset(), None))[0] if sym is not None else frozenset()
+                if isinstance(sym, tuple) and sym[0] == "b" and is_role((sym, roles), "topo"):
+                    fr = run.frames.get(sym[1])
+                    if fr:
+                        fns.add(fr[0])
+    fns -= graph_removers(A, g)
+    R.floor(rule, "startup classification functions (loops over the topological order that write job states / dependency flags)", len(fns), 1)
+    for fn in sorted(fns):
+        bad = pruning_order_violations(A, g, fn, "the startup classification")
+        R.ob(rule, "%s | the startup classification runs only after unconsumed Ephemerals were pruned" % short(fn), not bad,
+             detail="; ".join(bad[:3]), site=A.facts.body(fn).span["s"] if A.facts.body(fn) else "")
